@@ -227,6 +227,7 @@ def main():
             R.log('model driver does not build:\n' + out[-3000:])
 
     R.log('building harness (2 profiles) against ' + R.REPO)
+    nohooks = False
     ok, out = R.build_harness()
     if not ok:
         cfail = R.const_eval_failure(out)
@@ -240,8 +241,13 @@ def main():
                       open(rpath, 'w'), indent=1)
             print(f'VIOLATION property={PID} replay={rpath}')
             sys.exit(1)
-        print(f'ERROR harness does not build against the current tree\n{out}')
-        sys.exit(2)
+        # the crate may no longer compile WITH the hook forwarders although it compiles as its users build it: run without hooks
+        if R.build_harness_nohooks():
+            nohooks = True
+            R.log('harness does not build with the hook forwarders; running WITHOUT hooks (public operations only)')
+        else:
+            print(f'ERROR harness does not build against the current tree\n{out}')
+            sys.exit(2)
 
     # ---- operation lines: (line, owner property)
     lines, owner = [], []
@@ -270,6 +276,9 @@ def main():
                 if l not in seen:
                     seen.add(l); lines.append(l); owner.append(fp); n += 1
             per_prop[fp] = dict(generated=total, run=n)
+    if nohooks:
+        keep = [i for i, l in enumerate(lines) if '.hook.' not in l.split()[0]]
+        lines, owner = [lines[i] for i in keep], [owner[i] for i in keep]
     R.log(f'{len(lines)} operation lines (' + ', '.join(k + ':' + str(v['run']) for k, v in per_prop.items()) + ')')
 
     impl = {}
